@@ -103,6 +103,8 @@ Definition check_shared (prop : Z) (inp impl : sx) : sx :=
   | _, _ => badcase
   end.
 
+Fixpoint zs_range (a : Z) (n : nat) : list Z := match n with O => [] | S k => a :: zs_range (a + 1) k end.
+
 Definition check_iso (prop : Z) (inp impl : sx) : sx :=
   match inp, impl with
   | L [A 13; A c0; A conc; L ms], L [L bases] =>
@@ -118,6 +120,21 @@ Definition check_iso (prop : Z) (inp impl : sx) : sx :=
           else
             (* concurrent calls: some sequential order; every base is c0 + a sum of other blocks' sizes (checked through disjointness + coverage) *)
             (if forallb (fun b => ((b - c0) mod M16) <=? total) bases then verdict V_OK cls [] (L []) else verdict V_DIVERGE cls [] (L []))
+      | _, _ => badcase
+      end
+  (* the IP identifications TCP SYN runs that are alive together put on the wire: pairwise disjoint (C11), and what the
+     allocator model and the scheme base + TTL predict *)
+  | L [A 26; A c0; L ranges], L [L idss] =>
+      let d_rng := fun s => match s with L [A f; A l] => Some (f, l) | _ => None end in
+      match dec_list d_rng ranges, dec_list (fun s => match s with L l => sx_zs l | _ => None end) idss with
+      | Some ranges, Some idss =>
+          let cls := 3 + 4 * Z.min 7 (Z.of_nat (length ranges)) in
+          let all := concat idss in
+          let fix nodup (l : list Z) : bool := match l with [] => true | x :: r => negb (existsb (Z.eqb x) r) && nodup r end in
+          let bases := map fst (alloc_seq c0 (map snd ranges)) in
+          let want := map (fun br => match br with (b, (f, l)) => map (fun t => (b + t) mod M16) (zs_range f (Z.to_nat (l - f + 1))) end) (combine bases ranges) in
+          if (Z.of_nat (length all) <=? 65536) && negb (nodup all) then verdict V_SPECFAIL cls [11; 2] (L [])
+          else if list_eqb (list_eqb Z.eqb) want idss then verdict V_OK cls [] (L []) else verdict V_DIVERGE cls [] (L (map (fun l => L (map A l)) want))
       | _, _ => badcase
       end
   | L [A 14; A c0; A n], L [L ids] =>
